@@ -8,10 +8,12 @@ import (
 	"sort"
 	"strings"
 
+	"github.com/ohler55/ojg/gen"
 	"github.com/ohler55/ojg/jp"
 
 	"verif/gen/treegen"
 	"verif/mon"
+	"verif/props/decoders"
 	"verif/props/jpspec"
 	"verif/ref/jpref"
 )
@@ -189,6 +191,19 @@ func (ck *checker) check(p jpref.Path, data any, enum bool) {
 		c.Violation("jp.Expr.Get", "wrong-elements", pathClass(p), cs, showRes(want), diff+" | Get: "+clip(treegen.Show(got)))
 		return
 	}
+	// the same path on the same data held as gen nodes selects the corresponding elements (the multiset of
+	// values; every fragment has a second copy of its code for gen data, a trailing descent included)
+	var ggot []any
+	if pn := mon.Guard(func() { ggot = x.Get(toGen(data)) }); pn != nil {
+		c.Violation("jp.Expr.Get(gen)", "panic", pathClass(p), cs, "results", pn.String())
+		return
+	}
+	c.Eval(1)
+	c.Cover("twin:gen")
+	if a, b := valueBag(ggot), valueBag(got); a != b {
+		c.Violation("jp.Expr.Get(gen)", "selects-other-elements-than-on-simple-data", pathClass(p), cs, clip(b), clip(a))
+		return
+	}
 	dup := map[string]bool{}
 	for _, w := range want {
 		id := fmt.Sprint(w.Loc...) + "|" + fmt.Sprint(len(w.Loc))
@@ -354,3 +369,44 @@ func end(e int) int {
 
 var _ = sort.Strings
 var _ = jp.R
+
+func toGen(v any) gen.Node {
+	switch t := v.(type) {
+	case nil:
+		return nil
+	case bool:
+		return gen.Bool(t)
+	case int64:
+		return gen.Int(t)
+	case float64:
+		return gen.Float(t)
+	case string:
+		return gen.String(t)
+	case []any:
+		a := make(gen.Array, len(t))
+		for i, e := range t {
+			a[i] = toGen(e)
+		}
+		return a
+	case map[string]any:
+		o := make(gen.Object, len(t))
+		for k, e := range t {
+			o[k] = toGen(e)
+		}
+		return o
+	}
+	panic(fmt.Sprintf("toGen %T", v))
+}
+
+// valueBag is the sorted list of the results' values (gen nodes simplified).
+func valueBag(vs []any) string {
+	out := make([]string, len(vs))
+	for i, v := range vs {
+		if n, ok := v.(gen.Node); ok && n != nil {
+			v = decoders.FromGen(n)
+		}
+		out[i] = treegen.Show(v)
+	}
+	sort.Strings(out)
+	return strings.Join(out, " ")
+}
